@@ -212,9 +212,10 @@ func (p *Program) CalleesAt(site ssa.CallInstruction) []*ssa.Function {
 var callbackCache = map[*ssa.Function]*callbackInfo{}
 
 type callbackInfo struct {
-	funcs     map[*ssa.Function]bool
-	types     map[string]bool
-	forwards  bool
+	funcs    map[*ssa.Function]bool
+	types    map[string]bool
+	forwards bool
+	anyIface bool // converts some value to an interface or re-types one
 }
 
 func (p *Program) callbackInfoOf(f *ssa.Function) *callbackInfo {
@@ -261,10 +262,6 @@ func (p *Program) callbackInfoOf(f *ssa.Function) *callbackInfo {
 		case *types.Map:
 			addType(u.Key(), depth+1)
 			addType(u.Elem(), depth+1)
-		case *types.Interface:
-			if depth > 0 {
-				ci.forwards = true // an interface-typed field: anything may be inside
-			}
 		}
 	}
 	var scan func(g *ssa.Function)
@@ -288,8 +285,12 @@ func (p *Program) callbackInfoOf(f *ssa.Function) *callbackInfo {
 				// a concrete value handed to someone as an interface: its methods
 				// (and those of what it contains) may be called back
 				addType(x.X.Type(), 0)
+				ci.anyIface = true
 			case *ssa.ChangeInterface:
-				ci.forwards = true
+				// an interface value re-typed as another interface: the dynamic
+				// type was put there by someone else; covered by the
+				// reflection-callback list and by that someone's own MakeInterface
+				ci.anyIface = true
 			}
 		})
 		for _, af := range g.AnonFuncs {
@@ -304,12 +305,30 @@ func (p *Program) callbackInfoOf(f *ssa.Function) *callbackInfo {
 // mayCallBack: can the module function `entry`, having called into the
 // standard library, be the origin of a callback to module function g?
 func (p *Program) mayCallBack(entry, g *ssa.Function) bool {
+	return p.mayCallBackMode(entry, g, true)
+}
+
+// mayCallBackMode: with conservative=false the reflection-callback fallback
+// (String/Error methods of values hidden inside interface-typed fields) is not
+// applied; only types the entering function itself converts to an interface
+// (and what they structurally contain) count.
+func (p *Program) mayCallBackMode(entry, g *ssa.Function, conservative bool) bool {
 	if entry == nil {
 		return true
 	}
 	ci := p.callbackInfoOf(entry)
 	if ci.forwards {
 		return true
+	}
+	// reflection-driven callbacks (fmt and friends call these on values nested
+	// anywhere inside their operands, including inside interface-typed fields)
+	switch g.Name() {
+	case "String", "Error", "GoString", "Format", "MarshalJSON", "MarshalText", "UnmarshalJSON", "UnmarshalText":
+		// allowed when the entering function hands over some interface value at
+		// all (fmt-style APIs); g == entry itself needs its own type handed over
+		if conservative && g.Signature.Recv() != nil && g != entry && ci.anyIface {
+			return true
+		}
 	}
 	for h := g; h != nil; h = h.Parent() {
 		if ci.funcs[h] {
